@@ -11,27 +11,34 @@ open ZnVerif.Model ZnVerif.Spec
 
 variable {ν : Type} [NumOps ν]
 
-theorem sim_arr {ω : Addr → Option (SVal ν)} {d n : Nat} (ih : IH ω d n) (ln : Nat) (items : List Expr)
-    (hitems : ∀ e ∈ items, PureExpr e) (s : VM ν) (σ : SState ν) (henv : EnvRel ω d s σ) :
-    Sim d (Reads ω (n + 1 + d)) s σ (evalExpr (n+1) (.arr ln items)) (evalE (n+1) (.arr ln items)) := by
+/-- a list literal whose items read within `k` reads within `k+1` -/
+theorem sim_arr' {ω : Addr → Option (SVal ν)} {d n k : Nat} (ln : Nat) (items : List Expr) (s : VM ν) (σ : SState ν)
+    (hitem : ∀ e ∈ items, ∀ s1, Frame s s1 → Sim d (Reads ω k) s1 σ (evalExpr n e) (evalE n e)) :
+    Sim d (Reads ω (k + 1)) s σ (evalExpr (n+1) (.arr ln items)) (evalE (n+1) (.arr ln items)) := by
   simp only [evalExpr, evalE]
-  refine sim_bind (sim_mapM (Q := Reads ω (n + d)) (fun _ _ _ _ hF h => h.frame hF) items s
-    fun e he s1 hF1 => ih e s1 σ (hitems e he) (henv.frame hF1)) fun s1 as vs hF hall => ?_
-  refine sim_weaken (fun _ _ _ h => h.mono (by omega)) (sim_alloc (k := n + d) _ _ ?_)
+  refine sim_bind (sim_mapM (Q := Reads ω k) (fun _ _ _ _ hF h => h.frame hF) items s hitem) fun s1 as vs hF hall => ?_
+  refine sim_alloc (k := k) _ _ ?_
   exact ⟨vs, rfl, hall.imp fun a v h => contentW_heap (HeapLe.push _ _) h⟩
 
-theorem sim_hm {ω : Addr → Option (SVal ν)} {d n : Nat} (ih : IH ω d n) (ln : Nat) (kvs : List (Expr × Expr))
-    (hitems : ∀ kv ∈ kvs, PureExpr kv.2) (s : VM ν) (σ : SState ν) (henv : EnvRel ω d s σ) :
-    Sim d (Reads ω (n + 1 + d)) s σ (evalExpr (n+1) (.hm ln kvs)) (evalE (n+1) (.hm ln kvs)) := by
+theorem sim_arr {ω : Addr → Option (SVal ν)} {d n : Nat} (ih : IH ω d n) (ln : Nat) (items : List Expr)
+    (hitems : ∀ e ∈ items, PureExpr e) (s : VM ν) (σ : SState ν) (henv : EnvRel ω d s σ) :
+    Sim d (Reads ω (n + 1 + d)) s σ (evalExpr (n+1) (.arr ln items)) (evalE (n+1) (.arr ln items)) :=
+  sim_weaken (fun _ _ _ h => h.mono (by omega))
+    (sim_arr' (k := n + d) ln items s σ fun e he s1 hF1 => ih e s1 σ (hitems e he) (henv.frame hF1))
+
+/-- a dictionary literal whose values read within `k` reads within `k+1` -/
+theorem sim_hm' {ω : Addr → Option (SVal ν)} {d n k : Nat} (ln : Nat) (kvs : List (Expr × Expr)) (s : VM ν) (σ : SState ν)
+    (hitem : ∀ kv ∈ kvs, ∀ s1, Frame s s1 → Sim d (Reads ω k) s1 σ (evalExpr n kv.2) (evalE n kv.2)) :
+    Sim d (Reads ω (k + 1)) s σ (evalExpr (n+1) (.hm ln kvs)) (evalE (n+1) (.hm ln kvs)) := by
   simp only [evalExpr, evalE]
-  refine sim_bind (sim_mapM (Q := fun s (p : String × Addr) (p' : String × SVal ν) => p.1 = p'.1 ∧ Reads ω (n + d) s p.2 p'.2)
+  refine sim_bind (sim_mapM (Q := fun s (p : String × Addr) (p' : String × SVal ν) => p.1 = p'.1 ∧ Reads ω k s p.2 p'.2)
     (fun _ _ _ _ hF h => ⟨h.1, h.2.frame hF⟩) kvs s fun kv hkv s1 hF1 => ?_) fun s1 ps ps' hF hall => ?_
-  · obtain ⟨k, e⟩ := kv
+  · obtain ⟨key, e⟩ := kv
     have hv : ∀ (key : String) s2, Frame s1 s2 →
-        Sim d (fun s (p : String × Addr) (p' : String × SVal ν) => p.1 = p'.1 ∧ Reads ω (n + d) s p.2 p'.2) s2 σ
+        Sim d (fun s (p : String × Addr) (p' : String × SVal ν) => p.1 = p'.1 ∧ Reads ω k s p.2 p'.2) s2 σ
           (do let v ← evalExpr n e; pure (key, v)) (do let v ← evalE n e; pure (key, v)) := fun key s2 hF2 =>
-      sim_bind (ih e s2 σ (hitems _ hkv) (henv.frame (hF1.trans hF2))) fun s3 a v hF3 hq => sim_pure ⟨rfl, hq⟩
-    cases k
+      sim_bind (hitem _ hkv s2 (hF1.trans hF2)) fun s3 a v hF3 hq => sim_pure ⟨rfl, hq⟩
+    cases key
     case str ln t =>
       exact sim_bind (sim_pure (Q := fun _ (x y : String) => x = y) rfl) fun s2 k k' hF2 hk => by
         subst hk; exact hv _ s2 hF2
@@ -41,7 +48,13 @@ theorem sim_hm {ω : Addr → Option (SVal ν)} {d n : Nat} (ih : IH ω d n) (ln
         subst hk; exact hv _ s3 (hF2.trans hF3)
     all_goals
       exact sim_bind (Q := fun _ (_ _ : String) => False) (sim_rt' 80 80 rfl) fun _ _ _ _ h => h.elim
-  · refine sim_weaken (fun _ _ _ h => h.mono (by omega)) (sim_alloc (k := n + d) _ _ ?_)
+  · refine sim_alloc (k := k) _ _ ?_
     exact newHashMapCell_layer ω _ _ ps ps' (hall.imp fun p p' h => ⟨h.1, contentW_heap (HeapLe.push _ _) h.2⟩)
+
+theorem sim_hm {ω : Addr → Option (SVal ν)} {d n : Nat} (ih : IH ω d n) (ln : Nat) (kvs : List (Expr × Expr))
+    (hitems : ∀ kv ∈ kvs, PureExpr kv.2) (s : VM ν) (σ : SState ν) (henv : EnvRel ω d s σ) :
+    Sim d (Reads ω (n + 1 + d)) s σ (evalExpr (n+1) (.hm ln kvs)) (evalE (n+1) (.hm ln kvs)) :=
+  sim_weaken (fun _ _ _ h => h.mono (by omega))
+    (sim_hm' (k := n + d) ln kvs s σ fun kv hkv s1 hF1 => ih kv.2 s1 σ (hitems kv hkv) (henv.frame hF1))
 
 end ZnVerif.Proofs
